@@ -1171,7 +1171,7 @@ def rand_put(rng, desc, flags):
         start, sub = None, None
     ep = rng.choice(['call', 'call', 'writeraw'] if raw else ['call', 'write', 'writechip'])
     index = rand_index(rng, count, target)
-    return {'ep': ep, 'index': index, 'raw': raw, 'start': start, 'sub': sub, 'region': region, 'how': rng.choice(['kw', 'kw', 'pos']),
+    return {'ep': ep, 'index': index, 'raw': raw, 'start': start, 'sub': sub, 'region': region, 'how': rng.choice(['kw', 'min', 'pos']),
             'basis': 'raw' if raw else 'fmt', 'target': target}
 
 
@@ -1191,15 +1191,25 @@ def do_put(writer, req, data):
     ep, idx = req['ep'], req['index']
     _REC['log'] = []
     try:
+        # 'min': only the arguments that differ from the documented defaults (None / None / 0 / False) are passed, so the defaults themselves are exercised
+        kw_min = {k: v for k, v in (('start_indices', start), ('subscript', sub)) if v is not None}
+        if idx != 0:
+            kw_min['index'] = idx
         if ep == 'call':
             if req['how'] == 'pos':
                 writer(data, start, sub, idx, req['raw'])
+            elif req['how'] == 'min':
+                if req['raw']:
+                    kw_min['raw'] = True
+                writer(data, **kw_min)
             else:
                 writer(data, start_indices=start, subscript=sub, index=idx, raw=req['raw'])
         else:
             f = {'write': writer.write, 'writeraw': writer.write_raw, 'writechip': writer.write_chip}[ep]
             if req['how'] == 'pos':
                 f(data, start, sub, idx)
+            elif req['how'] == 'min':
+                f(data, **kw_min)
             else:
                 f(data, start_indices=start, subscript=sub, index=idx)
         return ('ok', ), _REC['log']
@@ -1212,7 +1222,8 @@ def do_put(writer, req, data):
 def describe_put(req):
     name = {'call': 'writer', 'write': 'writer.write', 'writeraw': 'writer.write_raw', 'writechip': 'writer.write_chip'}[req['ep']]
     sub = None if req['sub'] is None else '(' + ', '.join(show_val(e) for e in req['sub']) + ')'
-    return f'{name}(data, start_indices={req["start"]}, subscript={sub}, index={req["index"]}' + (f', raw={req["raw"]})' if req['ep'] == 'call' else ')')
+    return f'{name}(data, start_indices={req["start"]}, subscript={sub}, index={req["index"]}' + (f', raw={req["raw"]})' if req['ep'] == 'call' else ')') + \
+        (' [arguments at their defaults omitted]' if req.get('how') == 'min' else '')
 
 
 def run_writes(chk, tier):
@@ -1318,7 +1329,7 @@ def file_history(rng, desc, tmpdir, fails, stats):
     for i, im in enumerate(desc['images']):
         for a, b in sargen.row_chunks(rng, im['raw'][0], max_chunks=3):
             steps.append({'image': i, 'rows': [a, b], 'ep': rng.choice(['write', 'writechip', 'writeraw', 'call0', 'call1']),
-                          'how': rng.choice(['kw', 'pos']), 'addr': rng.choice(['start', 'sub'])})
+                          'how': rng.choice(['kw', 'min', 'pos']), 'addr': rng.choice(['start', 'sub'])})
     rng.shuffle(steps)
     stats['file_histories'] += 1
     run_file_history(desc, steps, tmpdir, fails)
@@ -1351,15 +1362,24 @@ def run_file_history(desc, steps, tmpdir, fails):
                 chunk = chunk.astype(w.data_segment[i].raw_dtype)
             start = (a, ) + (0, ) * (d.ndim - 1) if st['addr'] == 'start' else None
             sub = None if st['addr'] == 'start' else (slice(a, b, 1), ) + tuple(slice(0, n, 1) for n in d.shape[1:])
+            kw_min = {k: v for k, v in (('start_indices', start), ('subscript', sub)) if v is not None}
+            if i != 0:
+                kw_min['index'] = i
             if st['ep'] in ('call0', 'call1'):
                 if st['how'] == 'pos':
                     w(chunk, start, sub, i, raw)
+                elif st['how'] == 'min':
+                    if raw:
+                        kw_min['raw'] = True
+                    w(chunk, **kw_min)
                 else:
                     w(chunk, start_indices=start, subscript=sub, index=i, raw=raw)
             else:
                 f = {'write': w.write, 'writechip': w.write_chip, 'writeraw': w.write_raw}[st['ep']]
                 if st['how'] == 'pos':
                     f(chunk, start, sub, i)
+                elif st['how'] == 'min':
+                    f(chunk, **kw_min)
                 else:
                     f(chunk, start_indices=start, subscript=sub, index=i)
         w.close()
